@@ -1043,6 +1043,43 @@ func (f *Fn) localFactsAt(n ast.Node) *FactSet {
 	for i := 0; i < idx; i++ {
 		a.transfer(st, b.Nodes[i])
 	}
+	// short-circuit position: n sits in the right operand of && (||) inside the node it was
+	// located in, so it is evaluated only when the left operand was true (false)
+	if idx < len(b.Nodes) && b.Nodes[idx] != n {
+		var path []ast.Node
+		var stack []ast.Node
+		ast.Inspect(b.Nodes[idx], func(m ast.Node) bool {
+			if m == nil {
+				stack = stack[:len(stack)-1]
+				return true
+			}
+			stack = append(stack, m)
+			if m == n && path == nil {
+				path = append([]ast.Node{}, stack...)
+			}
+			if _, isLit := m.(*ast.FuncLit); isLit && m != n {
+				// do not descend into literals: their bodies run elsewhere
+				stack = stack[:len(stack)-1]
+				return false
+			}
+			return path == nil
+		})
+		for i := 0; i+1 < len(path); i++ {
+			be, ok := path[i].(*ast.BinaryExpr)
+			if !ok || be.Op != token.LAND && be.Op != token.LOR {
+				continue
+			}
+			// is the next node on the path inside be.Y?
+			nx := path[i+1]
+			if nx.Pos() >= be.Y.Pos() && nx.End() <= be.Y.End() {
+				var atoms []atom
+				collectAtoms(be.X, be.Op == token.LAND, &atoms)
+				for _, at := range atoms {
+					a.addAtomFacts(st, at, be.X)
+				}
+			}
+		}
+	}
 	fs := &FactSet{f: f, bind: st.bind}
 	for _, fa := range st.facts {
 		fs.Facts = append(fs.Facts, fa)
